@@ -27,22 +27,39 @@ def lemma_path():
         b = MC.ExponentialBackOff()
         b._delay, b.max_delay = SInt(d), SInt(Mx)
         op = eng.pick(3)
-        w = {"sub": "strategy", "max_delay": 60, "ops": ["f"]}
         ctx.witness = None
         ctx.nontrivial()
+
+        def small_witness(cond):
+            """a replayable counterexample: n <= 40 and max_delay <= 3600 with pow2 pinned to the real powers of two there"""
+            def build(_m):
+                s2 = z3.Solver()
+                s2.set("timeout", 20000)
+                s2.add(eng.solver.assertions())
+                s2.add(z3.Not(cond.t if isinstance(cond, SBool) else cond), n <= 40, Mx <= 3600)
+                s2.add([pow2(k) == 2 ** k for k in range(0, 42)])
+                if s2.check() != z3.sat:
+                    return None
+                m2 = s2.model()
+                nn, mm = m2.eval(n, model_completion=True).as_long(), m2.eval(Mx, model_completion=True).as_long()
+                return {"sub": "strategy", "max_delay": mm, "ops": ["f"] * nn + (["f"] if op == 0 else ["r"] if op == 1 else [])}
+            return build
+
+        def chk(cond, what):
+            return ctx.check(cond, what, witness=small_witness(cond))
         if op == 0:
             b.failure()
             nd = b._delay
-            ctx.check(nd == SInt(pow2(n)), "failure(): invariant I(n+1): delay == 2^n")
+            chk(nd == SInt(pow2(n)), "failure(): invariant I(n+1): delay == 2^n")
             rep = b.current_delay_sec
-            ctx.check(rep == SInt(z3.If(pow2(n) < Mx, pow2(n), Mx)), "after failure(): reported == min(2^n, max_delay)")
+            chk(rep == SInt(z3.If(pow2(n) < Mx, pow2(n), Mx)), "after failure(): reported == min(2^n, max_delay)")
         elif op == 1:
             b.reset()
-            ctx.check(b._delay == 0, "reset(): invariant I(0)")
-            ctx.check(b.current_delay_sec == 0, "after reset(): reported == 0")
+            chk(b._delay == 0, "reset(): invariant I(0)")
+            chk(b.current_delay_sec == 0, "after reset(): reported == 0")
         else:
             rep = b.current_delay_sec
-            ctx.check(rep == SInt(z3.If(n == 0, 0, z3.If(pow2(n - 1) < Mx, pow2(n - 1), Mx))), "current_delay_sec == min(2^(n-1), max_delay) (0 when n == 0)")
+            chk(rep == SInt(z3.If(n == 0, 0, z3.If(pow2(n - 1) < Mx, pow2(n - 1), Mx))), "current_delay_sec == min(2^(n-1), max_delay) (0 when n == 0)")
     return path
 
 
